@@ -176,11 +176,10 @@ def shared_rules(fb, ctx, pid, only=None):
     if not ins:
         # `.all(|(key, id)| match key { Variable(k) => vars.insert(*k, id), _ => true })`: the call sits in a closure of next; its
         # boolean must then be the closure's result (the adaptor consumes it) - `returned` in the closure body
-        for ck, cb in fb.bodies.items():
-            if cb.get("kind") == "Closure" and (cb.get("parent") == nb["key"] or ck.startswith(nb["key"] + "::")):
-                cins = mirq.calls_matching(fb, cb, r"datalog::MatchedVariables::insert$")
-                if cins:
-                    ins, owner_ = cins, cb
+        for cb in mirq.created_closures(fb, nb):          # also closures of a new helper that was inlined into next
+            cins = mirq.calls_matching(fb, cb, r"datalog::MatchedVariables::insert$")
+            if cins:
+                ins, owner_ = cins, cb
     if len(ins) != 1:
         ctx.fail("UNIFY", "CombineIt::next unifies through MatchedVariables::insert", "UNIFY|call", f"expected one call to MatchedVariables::insert in CombineIt::next, found {len(ins)}: variables are bound without the bind-or-compare step", f"{nb['file']}:{nb['line']}")
     else:
